@@ -40,7 +40,7 @@ def err_class(line, keep=("depth", "version")):
 
 
 def generic_run(binary, relevant_cmds, oracle_tags, sizes, canon=None, extra_args=None, corpus=None,
-                rule="", nontrivial=None):
+                rule="", nontrivial=None, scenario_cmd=None, full_canon=None):
     """Builds the `run` function of a property served by a req/rust/lean line-protocol binary."""
 
     def run(pid, spec, tier, seed, replay):
@@ -83,10 +83,21 @@ def generic_run(binary, relevant_cmds, oracle_tags, sizes, canon=None, extra_arg
             if len(lean) != len(rust):
                 violations.append(("harness-run", f"output length mismatch {len(rust)} vs {len(lean)}",
                                    "broken tie: driver produced a different number of lines", False))
+            diverged = False
             for i, (q, a) in enumerate(zip(reqs, rust)):
                 if not q:
                     continue
                 cmd = q.split(" ", 1)[0]
+                if scenario_cmd is not None:
+                    # stateful scenarios: once implementation and model have diverged their states differ and
+                    # later lines of the scenario say nothing; only the first diverging line is attributed
+                    if cmd == scenario_cmd:
+                        diverged = False
+                    if diverged:
+                        continue
+                    bfull = lean[i] if i < len(lean) else "<missing>"
+                    if full_canon(q, a) != full_canon(q, bfull):
+                        diverged = True
                 if relevant_cmds is not None and cmd not in relevant_cmds:
                     continue
                 if a in ("skipped",):
@@ -163,6 +174,7 @@ def codec_canon(q, line):
 # broker: one `bev` line per broker event; the answer lists what every client received
 
 BROKER_KEEP = {
+    "ALL": set(),
     "C02": {"callFunction", "callFunction2", "callFunctionReply", "abortFunctionCall"},
     "C03": {"createObjectReply", "destroyObjectReply", "createServiceReply", "destroyServiceReply", "queryServiceVersionReply",
             "queryServiceInfoReply", "subscribeEventReply", "subscribeServiceReply", "callFunctionReply:invalidService"},
@@ -192,11 +204,13 @@ def broker_canon_for(pid):
     keep = BROKER_KEEP[pid]
 
     def canon(q, line):
+        if line.startswith("PANIC") or line.startswith("panic"):
+            return "PANIC"   # a panic (of the implementation or a panic site reached by the model) concerns every property
         if not line.startswith("fin="):
             return line
         parts = line.split(" | ")
-        everything = pid == "C09" and q.startswith(BROKER_END_EVENTS)
-        out = [parts[0]] if pid in ("C09", "C11") else []
+        everything = pid == "ALL" or (pid == "C09" and q.startswith(BROKER_END_EVENTS))
+        out = [parts[0]] if pid in ("C09", "C11", "ALL") else []
         for p in parts[1:]:
             conn, _, msgs = p.partition(": ")
             ms = msgs.split(" ; ")
@@ -252,7 +266,8 @@ def broker_prop(pid, module):
         "namespace": "Aldrin.Broker",
         "level": "proof",
         "run": generic_run("broker", {"bev", "bstats"} if pid == "C09" else ({"bev", "hs"} if pid == "C12" else {"bev"}), {pid}, BROKER_SIZES,
-                           canon=broker_canon_for(pid), rule=BROKER_RULE, nontrivial=broker_nontrivial_for(pid)),
+                           canon=broker_canon_for(pid), rule=BROKER_RULE, nontrivial=broker_nontrivial_for(pid),
+                           scenario_cmd="breset", full_canon=broker_canon_for("ALL")),
         "trusted": BROKER_TRUSTED,
     }
 
@@ -319,4 +334,20 @@ PROPS = {
     "C10": broker_prop("C10", "Aldrin.Props.C10"),
     "C11": broker_prop("C11", "Aldrin.Props.C11"),
     "C12": broker_prop("C12", "Aldrin.Props.C12"),
+    "C20": {
+        "props_module": "Aldrin.Props.C20",
+        "namespace": "Aldrin.TypeIdM",
+        "level": "proof",
+        "run": generic_run("typeid", {"tid"}, {"C20"}, {"quick": (400, 4), "thorough": (6000, 14)},
+                           canon=lambda q, line: line.split(" ")[0],
+                           rule="random type graphs of 1-8 types (structs, enums, newtypes, services, generic built-ins incl. "
+                                "map/result/array, cycles through custom types, field ids at varint boundaries, docs with quotes / "
+                                "newlines / non-ASCII) built through the public IR builders and computed by TypeId::compute_from_dyn; "
+                                "per case the same graph again with fresh docs, shuffled builder calls and shuffled / duplicated "
+                                "reference lists, and once more after one semantic edit of a reachable type; one request line = one "
+                                "(graph, root) pair, answered with the final id"),
+        "trusted": ["SHA-1 / UUIDv5 are evaluated by the model's own implementation and compared with the uuid crate on every case; "
+                    "collision resistance is assumed", "that the closure loop reaches exactly the reachable types is tied by the "
+                    "correspondence, not proved"],
+    },
 }
